@@ -24,7 +24,7 @@ RULE = ('Hypothesis-generated produce calls (topic bytes 1-200, partition any in
         'KafkaTransportSink on the simulated socket; request bytes are parsed by the harness\'s own strict Kafka v0 parser '
         '(sizes, CRC32, header fields, nothing trailing); produce / metadata responses (several topics, partitions, brokers, '
         'negative error codes, int64 offsets) come from the harness encoder and must decode to exactly the tuples given, '
-        'each delivered to the request with the same correlation id. Non-trivial = >= 2 payloads with one empty or > 64 kB, '
+        'each delivered to the request with the same correlation id, also when all replies are readable in one burst; optionally one message is sent again through another broker\'s serializer and connection for another partition (a router retry). Non-trivial = >= 2 payloads with one empty or > 64 kB, '
         'or >= 2 concurrent requests answered out of order. distinct = distinct non-trivial plans.')
 ASSUMPTIONS = [
     'reply bytes arrive in drawn fragments (whole, single bytes, drawn sizes); requests are written with one sendall',
@@ -76,6 +76,11 @@ def strategy(tier):
       # the socket takes one request only in two pieces (the peer's window fills after `cut` bytes for a few ms)
       'stall': st.one_of(st.none(), st.none(), st.fixed_dictionaries({'send_index': st.integers(0, 3), 'cut': st.sampled_from([1, 9, 30, 64]),
                                                                         'for_ms': st.sampled_from([1, 4, 8])})),
+      # all replies arrive in one burst (readable together), instead of one at a time
+      'replies_together': st.sampled_from([False, False, True]),
+      # one of the messages is sent again afterwards, as the router does when it retries: through the serializer and
+      # connection of another broker, stamped with that member's endpoint (another partition)
+      'resend': st.one_of(st.none(), st.none(), st.fixed_dictionaries({'index': st.integers(0, 4), 'partition': I32})),
       'client_id': st.sampled_from([None, None, '', '78', '7363616c657321', 'c3a9e282ac', '61' * 40]),
       'chunks': st.one_of(st.none(), st.just('bytes'), st.lists(st.integers(1, 9), min_size=1, max_size=5),
                           st.lists(st.sampled_from([1, 3, 4, 5, 64, 1000]), min_size=1, max_size=4)),
@@ -144,6 +149,7 @@ def execute(plan):
     events = {}
     stacks = {}
     fired = set()
+    sent_msgs = []
     for i, rq in enumerate(reqs):
       if n_late and i == len(reqs) - n_late:
         # the deadlines of some requests that are already on the wire pass (what ClientTimeoutSink does), and only
@@ -164,6 +170,7 @@ def execute(plan):
       else:
         msg = MethodCallMessage(None, 'Put', (topic, payloads), {})
       msg.properties[MessageProperties.Endpoint] = kep
+      sent_msgs.append(msg)
       got = []
       results.append(got)
       st_ = ClientMessageSinkStack()
@@ -225,13 +232,25 @@ def execute(plan):
     order = [i for i in plan['order'] if i < len(reqs)]
     if order != sorted(order) and len(order) >= 2:
       nt.add('>=2 concurrent requests answered out of order')
+    together = bool(plan.get('replies_together')) and len(order) >= 2
+    if together:
+      nt.add('>=2 replies readable together')
+      burst = b''
+      for i in order:
+        rq, rec = reqs[i], peer.requests[i]
+        resp = [(bytes.fromhex(name), [tuple(p) for p in parts]) for name, parts in rq['response']]
+        resp.append((b'marker', [(i, 0, 1000 + i)]))
+        burst += K.encode_produce_response(rec['req']['correlation_id'], resp)
+      peer.requests[order[0]]['sock'].deliver(burst)
+      advance(0.004)
     for i in order:
       rq, rec = reqs[i], peer.requests[i]
       resp = [(bytes.fromhex(name), [tuple(p) for p in parts]) for name, parts in rq['response']]
       # unique marker so that responses can be told apart
       resp.append((b'marker', [(i, 0, 1000 + i)]))
-      rec['sock'].deliver(K.encode_produce_response(rec['req']['correlation_id'], resp))
-      advance(0.002)
+      if not together:
+        rec['sock'].deliver(K.encode_produce_response(rec['req']['correlation_id'], resp))
+        advance(0.002)
       want = []
       for name, parts in resp:
         for pid, err, off in parts:
@@ -249,8 +268,47 @@ def execute(plan):
             raise Violation(ID, 'response-undecodable', 'response for request %d failed to decode: %r' % (i, g[0].error))
           if list(g[0].return_value) != want:
             raise Violation(ID, 'response-mismatch', 'request %d decoded %r, broker encoded %r' % (i, g[0].return_value, want))
-        elif not done_before and g and not (j in fired and len(g) == 1 and isinstance(g[0].error, TimeoutError)):
+        elif not together and not done_before and g and not (j in fired and len(g) == 1 and isinstance(g[0].error, TimeoutError)):
           raise Violation(ID, 'response-misrouted', 'request %d completed when the response for request %d was sent' % (j, i))
+    rs = plan.get('resend')
+    cands = [i for i in range(len(reqs)) if i not in timed_out]
+    if rs is not None and cands:
+      i = cands[rs['index'] % len(cands)]
+      rq, msg = reqs[i], sent_msgs[i]
+      peer2 = KafkaPeer()
+      Server(net, ('127.0.0.1', PORT + 1), peer2)
+      ser2 = KafkaSerializerSink.Builder()
+      ser2.next_provider = KafkaTransportSink.Builder()
+      sink2 = ser2.CreateSink({SinkProperties.Label: 'svc', SinkProperties.Endpoint: ScalesUriParser.Endpoint('127.0.0.1', PORT + 1)})
+      op2 = sink2.Open()
+      advance(0.01)
+      if not op2.ready() or op2.exception:
+        raise Violation(ID, 'open-failed', 'second transport did not open: %r' % (op2.exception if op2.ready() else 'pending'))
+      msg.properties[MessageProperties.Endpoint] = KafkaEndpoint('127.0.0.1', PORT + 1, rs['partition'])
+      got = []
+      st_ = ClientMessageSinkStack()
+      st_.Push(Terminal(), got)
+      try:
+        sink2.AsyncProcessRequest(st_, msg, None, {})
+      except Exception as e:
+        raise Violation(ID, 'request-not-framed', 'produce request %d could not be framed when sent again: %r' % (i, e))
+      advance(0.01)
+      if len(peer2.requests) != 1 or 'error' in peer2.requests[0] or peer2.bad or peer2.leftover():
+        raise Violation(ID, 'request-malformed', 'request %d sent again to another broker: %r %r' % (i, peer2.requests, peer2.bad))
+      d = peer2.requests[0]['req']
+      parts = d['topics'][0]['partitions'] if len(d['topics']) == 1 else []
+      if len(d['topics']) != 1 or d['topics'][0]['topic'] != topic or len(parts) != 1 or parts[0]['partition'] != rs['partition']:
+        raise Violation(ID, 'partition', 'request %d sent again for partition %d of %r names %r' % (
+            i, rs['partition'], topic, [(t['topic'], [p['partition'] for p in t['partitions']]) for t in d['topics']]))
+      if [m['value'] for m in parts[0]['messages']] != [_payload(p) for p in rq['payloads']]:
+        raise Violation(ID, 'payloads', 'request %d sent again: message sizes %r' % (i, [len(m['value'] or b'') for m in parts[0]['messages']]))
+      peer2.requests[0]['sock'].deliver(K.encode_produce_response(d['correlation_id'], [(b'again', [(rs['partition'], 0, 7)])]))
+      advance(0.003)
+      if len(got) != 1 or got[0].error is not None or list(got[0].return_value) != [ProduceResponse(b'again', rs['partition'], 0, 7)]:
+        raise Violation(ID, 'response-not-delivered', 'request %d sent again: caller holds %r' % (i, [(m.error, m.return_value) for m in got]))
+      if rs['partition'] != plan['partition']:
+        nt.add('message sent again for another partition')
+      sink2.Close()
     # metadata
     meta = plan['metadata']
     if meta is not None:
